@@ -17,7 +17,9 @@
 //   exc=false reports failure => exc=true throws; and the documented failure outputs hold ("m is unchanged",
 //                        "returns m");
 //   well-conditioned (A with every |s_i| in [2^-10, 2^10]) => nothing throws, everything returns true;
-//   a zero row in the linear block => exc=true throws.
+//   a zero row in the linear block => exc=true throws;
+//   the flag-less spelling f(..) (declared `bool exc = true`) behaves exactly as f(.., true): same outcome class
+//   (returns / throws the same exception type), same return value, outputs bitwise equal (audit2 C07 S3).
 #include "c07_common.hpp"
 #include "c08_alpha.hpp" // c08::Site / C0X_FAIL
 #include <ImathMatrixAlgo.h>
@@ -56,11 +58,12 @@ template <class T> struct Flat
 
 struct ATally
 {
-    long long states = 0, transitions = 0, threw = 0, returned = 0, c_zero_row = 0, c_well = 0, c_reflection = 0, c_failure_no_zero_row = 0, c_generic = 0;
+    long long states = 0, transitions = 0, threw = 0, returned = 0, c_default_spelling = 0, c_default_threw = 0, c_zero_row = 0, c_well = 0, c_reflection = 0, c_failure_no_zero_row = 0, c_generic = 0;
     void add (const ATally& o)
     {
         states += o.states; transitions += o.transitions; threw += o.threw; returned += o.returned; c_zero_row += o.c_zero_row; c_well += o.c_well;
         c_reflection += o.c_reflection; c_failure_no_zero_row += o.c_failure_no_zero_row; c_generic += o.c_generic;
+        c_default_spelling += o.c_default_spelling; c_default_threw += o.c_default_threw;
     }
 };
 
@@ -104,6 +107,21 @@ void exc_pair (const std::string& name, const In& in, const Run& run, bool has_b
     if (!has_bool && mi.ref_failed && fail_out && !uo.eq (*fail_out)) C0X_FAIL (name + ".exc=false-failure-returns-input", in (), fail_out->str (), uo.str ());
     if (mi.well && (th != NONE || failure_u)) C0X_FAIL (name + ".fails-on-well-conditioned", in (), "success", th != NONE ? thrown_name (th) : "false");
     if (mi.zero_row && th == NONE) C0X_FAIL (name + ".no-throw-on-zero-row", in (), "std::domain_error", "returned");
+}
+
+// The flag-less spelling against exc = true.  rund(out) calls the function WITHOUT the exc argument.
+template <int ID, class T, class In, class RunD, class Run>
+void default_pair (const std::string& name, const In& in, const RunD& rund, const Run& run, ATally& t)
+{
+    Flat<T> d, c;
+    bool    db = true, cb = true;
+    int     thd = run_checked ([&] { db = rund (d); });
+    int     thc = run_checked ([&] { cb = run (true, c); });
+    t.transitions += 2;
+    ++t.c_default_spelling;
+    if (thd != NONE) ++t.c_default_threw;
+    if (thd != thc) C0X_FAIL (name + ".default-flag-vs-exc=true.outcome", in (), thrown_name (thc), thrown_name (thd));
+    else if (thd == NONE && (db != cb || !d.eq (c))) C0X_FAIL (name + ".default-flag-vs-exc=true.bitwise", in (), (cb ? "true " : "false ") + c.str (), (db ? "true " : "false ") + d.str ());
 }
 
 template <class T> std::string show44 (const Matrix44<T>& m)
@@ -191,6 +209,30 @@ template <class T> void check44 (const Matrix44<T>& M, MInfo mi, ATally& t)
                          return ok;
                      },
                      true, mi, nullptr, t);
+    // flag-less spellings (default argument)
+    default_pair<1, T> ("extractScaling(Matrix44" + P + ")", in, [&] (Flat<T>& o) { V3 s (0); bool r = extractScaling (M, s); o.push (s); return r; },
+                        [&] (bool e, Flat<T>& o) { V3 s (0); bool r = extractScaling (M, s, e); o.push (s); return r; }, t);
+    default_pair<2, T> ("sansScaling(Matrix44" + P + ")", in, [&] (Flat<T>& o) { o.push (sansScaling (M)); return true; }, [&] (bool e, Flat<T>& o) { o.push (sansScaling (M, e)); return true; }, t);
+    default_pair<3, T> ("removeScaling(Matrix44" + P + ")", in, [&] (Flat<T>& o) { M44 c (M); bool r = removeScaling (c); o.push (c); return r; },
+                        [&] (bool e, Flat<T>& o) { M44 c (M); bool r = removeScaling (c, e); o.push (c); return r; }, t);
+    default_pair<4, T> ("extractScalingAndShear(Matrix44" + P + ")", in, [&] (Flat<T>& o) { V3 s (0), h (0); bool r = extractScalingAndShear (M, s, h); o.push (s); o.push (h); return r; },
+                        [&] (bool e, Flat<T>& o) { V3 s (0), h (0); bool r = extractScalingAndShear (M, s, h, e); o.push (s); o.push (h); return r; }, t);
+    default_pair<5, T> ("sansScalingAndShear(Matrix44" + P + ")", in, [&] (Flat<T>& o) { o.push (sansScalingAndShear (M)); return true; },
+                        [&] (bool e, Flat<T>& o) { o.push (sansScalingAndShear (M, e)); return true; }, t);
+    default_pair<6, T> ("sansScalingAndShear(Matrix44" + P + "& result, mat)", in,
+                        [&] (Flat<T>& o) { M44 res (M); M44 other (M); other[3][0] = T (7); sansScalingAndShear (res, other); o.push (res); return true; },
+                        [&] (bool e, Flat<T>& o) { M44 res (M); M44 other (M); other[3][0] = T (7); sansScalingAndShear (res, other, e); o.push (res); return true; }, t);
+    default_pair<7, T> ("removeScalingAndShear(Matrix44" + P + ")", in, [&] (Flat<T>& o) { M44 c (M); bool r = removeScalingAndShear (c); o.push (c); return r; },
+                        [&] (bool e, Flat<T>& o) { M44 c (M); bool r = removeScalingAndShear (c, e); o.push (c); return r; }, t);
+    default_pair<8, T> ("extractAndRemoveScalingAndShear(Matrix44" + P + ")", in,
+                        [&] (Flat<T>& o) { M44 c (M); V3 s (0), h (0); bool r = extractAndRemoveScalingAndShear (c, s, h); o.push (c); if (r) { o.push (s); o.push (h); } return r; },
+                        [&] (bool e, Flat<T>& o) { M44 c (M); V3 s (0), h (0); bool r = extractAndRemoveScalingAndShear (c, s, h, e); o.push (c); if (r) { o.push (s); o.push (h); } return r; }, t);
+    default_pair<11, T> ("extractSHRT(Matrix44" + P + ",s,h,r,t)", in,
+                         [&] (Flat<T>& o) { V3 s (0), h (0), r (0), tr (0); bool ok = extractSHRT (M, s, h, r, tr); o.push (s); o.push (h); o.push (r); o.push (tr); return ok; },
+                         [&] (bool e, Flat<T>& o) { V3 s (0), h (0), r (0), tr (0); bool ok = extractSHRT (M, s, h, r, tr, e); o.push (s); o.push (h); o.push (r); o.push (tr); return ok; }, t);
+    default_pair<12, T> ("extractSHRT(Matrix44" + P + ",s,h,Euler&,t)", in,
+                         [&] (Flat<T>& o) { V3 s (0), h (0), tr (0); Euler<T> r (T (0), T (0), T (0), Euler<T>::YZX); bool ok = extractSHRT (M, s, h, r, tr); o.push (s); o.push (h); o.push (V3 (r.x, r.y, r.z)); o.push (tr); return ok; },
+                         [&] (bool e, Flat<T>& o) { V3 s (0), h (0), tr (0); Euler<T> r (T (0), T (0), T (0), Euler<T>::YZX); bool ok = extractSHRT (M, s, h, r, tr, e); o.push (s); o.push (h); o.push (V3 (r.x, r.y, r.z)); o.push (tr); return ok; }, t);
 }
 
 // ---------------------------------------------------------------------------------------------- 2-D
@@ -241,6 +283,24 @@ template <class T> void check33 (const Matrix33<T>& M, MInfo mi, ATally& t)
     exc_pair<30, T> ("extractSHRT(Matrix33" + P + ")", in,
                      [&] (bool e, Flat<T>& o) { V2 s (0), tr (0); T h = 0, r = 0; bool ok = extractSHRT (M, s, h, r, tr, e); o.push (s); o.push (h); o.push (r); o.push (tr); return ok; }, true,
                      mi, nullptr, t);
+    // flag-less spellings (default argument)
+    default_pair<21, T> ("extractScaling(Matrix33" + P + ")", in, [&] (Flat<T>& o) { V2 s (0); bool r = extractScaling (M, s); o.push (s); return r; },
+                         [&] (bool e, Flat<T>& o) { V2 s (0); bool r = extractScaling (M, s, e); o.push (s); return r; }, t);
+    default_pair<22, T> ("sansScaling(Matrix33" + P + ")", in, [&] (Flat<T>& o) { o.push (sansScaling (M)); return true; }, [&] (bool e, Flat<T>& o) { o.push (sansScaling (M, e)); return true; }, t);
+    default_pair<23, T> ("removeScaling(Matrix33" + P + ")", in, [&] (Flat<T>& o) { M33 c (M); bool r = removeScaling (c); o.push (c); return r; },
+                         [&] (bool e, Flat<T>& o) { M33 c (M); bool r = removeScaling (c, e); o.push (c); return r; }, t);
+    default_pair<24, T> ("extractScalingAndShear(Matrix33" + P + ")", in, [&] (Flat<T>& o) { V2 s (0); T h = 0; bool r = extractScalingAndShear (M, s, h); o.push (s); o.push (h); return r; },
+                         [&] (bool e, Flat<T>& o) { V2 s (0); T h = 0; bool r = extractScalingAndShear (M, s, h, e); o.push (s); o.push (h); return r; }, t);
+    default_pair<25, T> ("sansScalingAndShear(Matrix33" + P + ")", in, [&] (Flat<T>& o) { o.push (sansScalingAndShear (M)); return true; },
+                         [&] (bool e, Flat<T>& o) { o.push (sansScalingAndShear (M, e)); return true; }, t);
+    default_pair<27, T> ("removeScalingAndShear(Matrix33" + P + ")", in, [&] (Flat<T>& o) { M33 c (M); bool r = removeScalingAndShear (c); o.push (c); return r; },
+                         [&] (bool e, Flat<T>& o) { M33 c (M); bool r = removeScalingAndShear (c, e); o.push (c); return r; }, t);
+    default_pair<28, T> ("extractAndRemoveScalingAndShear(Matrix33" + P + ")", in,
+                         [&] (Flat<T>& o) { M33 c (M); V2 s (0); T h = 0; bool r = extractAndRemoveScalingAndShear (c, s, h); o.push (c); if (r) { o.push (s); o.push (h); } return r; },
+                         [&] (bool e, Flat<T>& o) { M33 c (M); V2 s (0); T h = 0; bool r = extractAndRemoveScalingAndShear (c, s, h, e); o.push (c); if (r) { o.push (s); o.push (h); } return r; }, t);
+    default_pair<30, T> ("extractSHRT(Matrix33" + P + ")", in,
+                         [&] (Flat<T>& o) { V2 s (0), tr (0); T h = 0, r = 0; bool ok = extractSHRT (M, s, h, r, tr); o.push (s); o.push (h); o.push (r); o.push (tr); return ok; },
+                         [&] (bool e, Flat<T>& o) { V2 s (0), tr (0); T h = 0, r = 0; bool ok = extractSHRT (M, s, h, r, tr, e); o.push (s); o.push (h); o.push (r); o.push (tr); return ok; }, t);
 }
 
 // ---------------------------------------------------------------------------------------------- builders
@@ -294,6 +354,8 @@ void publish (const char* dim, const ATally& t)
     R ().cls (d + "reflection(det<0)", t.c_reflection);
     R ().cls (d + "other.generic", t.c_generic);
     R ().cls (d + "exc=true-threw", t.threw);
+    R ().cls (d + "flag-less-spelling(default exc).returned-or-threw.generic", t.c_default_spelling);
+    R ().cls (d + "flag-less-spelling(default exc).threw", t.c_default_threw);
 }
 
 template <class T> void algo_stages (bool th)
@@ -477,6 +539,13 @@ template <class T> void algo_stages (bool th)
                             }
                             const std::string& nm = dim == 3 ? n3 : n2;
                             if (th != NONE) ++fired;
+                            {   // flag-less spelling == exc = true
+                                bool db = true;
+                                int  thd = dim == 3 ? run_checked ([&] { db = checkForZeroScaleInRow (a, Vec3<T> (row[0], row[1], row[2])); })
+                                                    : run_checked ([&] { db = checkForZeroScaleInRow (a, Vec2<T> (row[0], row[1])); });
+                                if (thd != th || (thd == NONE && db != cb))
+                                    C0X_FAIL (std::string ("checkForZeroScaleInRow<") + tname<T> () + ">.default-flag-vs-exc=true", nm + " " + in (), thrown_name (th), thrown_name (thd));
+                            }
                             // the sites below are shared by the Vec2 and Vec3 overloads of one type; the input string tells them apart
                             if (th == NONE)
                             {
